@@ -13,8 +13,9 @@
   definitions without any panic outcome; their recursion is by structural or well-founded descent
   (GM.Model.Util, GM.Model.Writer) and they are tied to the Go functions by the `util` correspondence.
   The whole BLOCK PHASE is modelled (GM.Model.Blocks) and proved to terminate on every byte string.
-  What is NOT proved: no-panic of the block phase as a whole, the concrete inline parsers (their Lean model is
-  being built as a separate package), stack depth, super-linear running time. That part is
+  The whole INLINE PHASE with the concrete parsers is modelled (GM.Model.Inlines*) and proved total (no panic, terminates).
+  What is NOT proved: no-panic of the block phase as a whole (per-parser results so far), blocks with tab padding in
+  the inline phase, the paragraph transformer, the extensions' parsers, stack depth, super-linear running time. That part is
   searched: component `total` (exhaustive short strings + mutated corpus under the configuration lattice,
   panic recovery, per-input watchdog, Convert vs Parse+Render).
 -/
@@ -83,13 +84,14 @@ theorem block_phase_outcome : type_of% @GM.Props.Blocks.parseBlocks_outcome := @
     notes/status_inlines.md and not yet proved; none occurred on 16.6M sources.) -/
 theorem process_delimiters_terminates : type_of% @GM.Props.Inlines.processDelimiters_terminates_no_panic := @GM.Props.Inlines.processDelimiters_terminates_no_panic
 
-/-- The whole inline phase with the CONCRETE default inline parsers (code span, emphasis + ProcessDelimiters, autolink,
-    raw HTML; the link parser only sees `!`) returns a tree — no Go panic, no non-termination — for every source
-    without `[` and `]`, every padding-free well-formed segment list, reference map and Unicode-class assignment. -/
-theorem inline_phase_total_without_brackets : type_of% @GM.Props.Inlines.parseBlock_fuel_suffices_nobracket := @GM.Props.Inlines.parseBlock_fuel_suffices_nobracket
-/-- …and for EVERY source given the one contract of `linkParser.Parse` that is not yet proved (stated precisely in
-    notes/status_inlines.md): the other four parsers' contracts are theorems. -/
-theorem inline_phase_total_given_link_contract : type_of% @GM.Props.Inlines.parseBlock_fuel_suffices_of_link_contract := @GM.Props.Inlines.parseBlock_fuel_suffices_of_link_contract
+/-- The whole INLINE PHASE with the concrete default inline parsers (code span, emphasis + ProcessDelimiters, links and
+    images with inline / full / collapsed / shortcut references, autolinks, raw HTML) returns a tree — no Go panic, no
+    non-termination, none of the model's guards — for EVERY source, every padding-free well-formed segment list,
+    every reference map and every Unicode-class assignment. -/
+theorem inline_phase_total : type_of% @GM.Props.Inlines.parseBlock_total := @GM.Props.Inlines.parseBlock_total
+/-- the link parser keeps the contract the loop relies on (consumes at least one byte when it returns a node,
+    restores the reader otherwise, keeps the delimiter/label context invariant) -/
+theorem link_parser_contract : type_of% @GM.Props.Inlines.link_parser_keeps_contract := @GM.Props.Inlines.link_parser_keeps_contract
 
 /-- Block phase: blockquote.process, the paragraph parser's Open/Continue/Close, thematic-break Open and ATX Open never
     panic from any reader state satisfying the block-phase reader invariant. -/
